@@ -96,6 +96,7 @@ type judgeOpts struct {
 	SigPrefix string // signature detail
 	NoOneLine bool   // do not also run the one-line layout
 	NoPrompt  bool   // do not also run the one-line layout as a line of the interactive prompt
+	NoTwice   bool   // do not also run the program as the body of a function called twice
 	Machine   *model.Machine
 }
 
@@ -111,6 +112,9 @@ func judge(c *fw.Ctx, prog []*model.N, jo judgeOpts) (o h.Outcome, res *model.Re
 		judgeOneLine(c, prog, jo, o, res)
 		if !jo.NoPrompt && jo.Stdin == "" && len(jo.Prefix) == 0 {
 			judgePrompt(c, prog, jo)
+		}
+		if !jo.NoTwice && jo.Stdin == "" && len(jo.Prefix) == 0 && res.Err == nil {
+			judgeTwice(c, prog, jo)
 		}
 		if res.Err != nil && !strings.Contains(strings.ReplaceAll(src, "\n", ""), "\r") && strings.Count(src, "\"")%2 == 0 {
 			judgeCRLF(c, src, jo, o, res)
@@ -395,5 +399,47 @@ func judgePrompt(c *fw.Ctx, prog []*model.N, jo judgeOpts) {
 	}
 	if (res.Err != nil) != (o.Stderr != "") {
 		fail("diagnostic", fmt.Sprintf("runtime error expected: %v", res.Err != nil), fmt.Sprintf("stderr %q", trunc(o.Stderr, 200)))
+	}
+}
+
+// judgeTwice runs the program as the body of a function that is called twice in one run: the
+// second execution of the very same statements (same syntax-tree nodes, fresh activation) must
+// behave as the reference model says -- whatever the first execution left behind on the nodes
+// or in the interpreter must not show.  Only for programs that end without an error.
+func judgeTwice(c *fw.Ctx, prog []*model.N, jo judgeOpts) {
+	wrapped := []*model.N{model.Fun("twice_body", nil, cloneProg(prog)...), model.ExprS(model.CallN("twice_body")), model.Print(model.Str("--again")), model.ExprS(model.CallN("twice_body"))}
+	wrapped = parenAll(wrapped)
+	m := &model.Machine{}
+	if jo.Machine != nil {
+		m.MaxSteps = 2*jo.Machine.MaxSteps + 100
+	}
+	res := m.Run(wrapped)
+	if res.Unspec != "" || res.Diverged {
+		c.Count("twice_variant_left_out_unspecified")
+		return
+	}
+	src := model.Render(wrapped)
+	o := h.RunFile(src, h.Opts{Fuel: fuelFor(res) + 40*int64(len(src))})
+	c.Eval(src, true)
+	base := fw.Replay{Mode: "file", Program: src, CLI: true, InStdout: o.Stdout, InStderr: o.Stderr, InStatus: o.Status}
+	if abnormal(c, o, "file", src, base) {
+		return
+	}
+	fail := func(clause, exp, obs string) {
+		r := base
+		r.Sig = c.Check + "|as-function-called-twice|" + clause
+		if jo.SigPrefix != "" {
+			r.Sig += "|" + strings.SplitN(jo.SigPrefix, "|", 2)[0]
+		}
+		r.What = "the program as the body of a function called twice: " + clause
+		r.Expected, r.Observed = exp, obs
+		c.Violate(r)
+	}
+	if why := model.CompareStdout(res, o.Stdout); why != "" {
+		fail("stdout", res.Stdout(), o.Stdout+"  ("+why+")")
+		return
+	}
+	if (res.Err != nil) != (o.Status == 70 && o.Stderr != "") || (res.Err == nil && (o.Status != 0 || o.Stderr != "")) {
+		fail("status", fmt.Sprintf("runtime error expected: %v", res.Err != nil), fmt.Sprintf("status %d stderr %q", o.Status, trunc(o.Stderr, 200)))
 	}
 }
